@@ -29,6 +29,8 @@ func main() {
 		txn(os.Args[2:])
 	case "deviation":
 		deviation(os.Args[2:])
+	case "getdata":
+		getdata(os.Args[2:])
 	default:
 		die(fmt.Errorf("unknown engine %q", os.Args[1]))
 	}
@@ -73,6 +75,47 @@ func deviation(args []string) {
 	bw.Flush()
 	of.Close()
 	fmt.Printf("states=%d\n", r.N)
+}
+
+func getdata(args []string) {
+	fs := flag.NewFlagSet("getdata", flag.ExitOnError)
+	in := fs.String("in", "", "states file (ndjson)")
+	out := fs.String("out", "", "trace file (ndjson)")
+	fs.Parse(args)
+	w, err := env.NewWorld("g0", "")
+	if err != nil {
+		die(err)
+	}
+	defer w.Close()
+	f, err := os.Open(*in)
+	if err != nil {
+		die(err)
+	}
+	defer f.Close()
+	of, err := os.Create(*out)
+	if err != nil {
+		die(err)
+	}
+	bw := bufio.NewWriterSize(of, 1<<20)
+	r := &drive.GetRunner{W: w, Out: bw}
+	sc := bufio.NewScanner(f)
+	sc.Buffer(make([]byte, 1<<20), 1<<26)
+	for sc.Scan() {
+		if len(sc.Bytes()) == 0 {
+			continue
+		}
+		var st drive.GetState
+		if err := json.Unmarshal(sc.Bytes(), &st); err != nil {
+			die(err)
+		}
+		if err := r.Run(&st); err != nil {
+			bw.Flush()
+			die(err)
+		}
+	}
+	bw.Flush()
+	of.Close()
+	fmt.Printf("requests=%d\n", r.N)
 }
 
 func txn(args []string) {
